@@ -20,6 +20,7 @@ RULE = (
     "unit-dependent controller set, or a non-default payload, option or binding"
     ' Also (added while the seeded-change rounds of DESIGN section 9 ran): Also: files written as older SunVox versions in the project context, failed saves in the past, an empty nested synth refused and then completed, large payloads, alternative writers / loaders (offset streams, mmap, unbuffered files, paths) and Python copies.'
 )
+RULE += " Rounds 12-14 of DESIGN section 9 added: shards of their own for Sampler, MetaModule, MultiSynth, SpectraVoice; FMX waveforms with +-inf, NaN, largest finite and denormal samples; loading also through gzip / bz2 / lzma file objects."
 ASSUMPTIONS = [
     "equality is on vlib.snapshot's public-attribute snapshot with its documented normalisations",
     "x, y, layer and visualization are not part of stand-alone synth files (documented) and are excluded from the synth-context comparison",
